@@ -9,6 +9,7 @@ import (
 	"flag"
 	"fmt"
 	"os"
+	"os/exec"
 	"path/filepath"
 	"sort"
 	"strconv"
@@ -51,10 +52,12 @@ type Run struct {
 	Level string
 	Seed  int64
 
-	start      time.Time
-	replayFile string
-	replay     *replayDoc
-	only       string
+	start          time.Time
+	replayFile     string
+	replay         *replayDoc
+	only           string
+	shardI, shardN int // >0 N: this process is child shard I of N
+	childOut       string
 
 	parts                       []partStat
 	samples                     []interface{}
@@ -86,6 +89,8 @@ func New(id, level string) *Run {
 	tier := flag.String("tier", os.Getenv("VERIF_TIER"), "quick|thorough")
 	rp := flag.String("replay", "", "replay file")
 	only := flag.String("only", "", "run only parts whose name has this prefix")
+	shard := flag.String("shard", "", "i/n: child process exploring shard i of n (internal)")
+	childOut := flag.String("child-out", "", "file for the child's statistics (internal)")
 	flag.Parse()
 	if *tier == "" {
 		*tier = "quick"
@@ -98,6 +103,10 @@ func New(id, level string) *Run {
 	r := &Run{ID: id, Tier: *tier, Level: level, Seed: seed, start: time.Now(), replayFile: *rp, only: *only,
 		Extra: map[string]interface{}{}, known: map[string]*Finding{}, knownCount: map[string]int64{},
 		knownKeys: map[string]map[string]bool{}, counters: map[string]int64{}}
+	if *shard != "" {
+		fmt.Sscanf(*shard, "%d/%d", &r.shardI, &r.shardN)
+		r.childOut = *childOut
+	}
 	var all []Finding
 	b, err := os.ReadFile(filepath.Join(Root, "known_findings.json"))
 	if err == nil {
@@ -200,6 +209,11 @@ func (r *Run) Explore(part, bound string, o mc.Opts, body func(*mc.Ctx)) mc.Stat
 	}
 	t0 := time.Now()
 	st := mc.Explore(o, body)
+	r.account(part, bound, o, st, t0, body)
+	return st
+}
+
+func (r *Run) account(part, bound string, o mc.Opts, st mc.Stats, t0 time.Time, body func(*mc.Ctx)) {
 	ps := partStat{Name: part, Execs: st.Execs, Points: st.Points, NonTrivial: st.NonTrivial, MaxDepth: st.MaxDepth,
 		Exhaustive: st.Complete, Bound: bound, Fails: st.FailCount, Wall: time.Since(t0).Seconds()}
 	r.parts = append(r.parts, ps)
@@ -256,7 +270,116 @@ func (r *Run) Explore(part, bound string, o mc.Opts, body func(*mc.Ctx)) mc.Stat
 	// failures beyond the stored cap are counted per class only through FailCount
 	fmt.Printf("[%s] part=%s execs=%d points=%d nontrivial=%d fails=%d exhaustive=%v %.1fs (%s)\n",
 		r.ID, part, st.Execs, st.Points, st.NonTrivial, st.FailCount, st.Complete, ps.Wall, bound)
+}
+
+// Owned reports whether index idx belongs to this process's shard; when it does
+// not, the execution is marked skipped and the driver must return at once.
+func (r *Run) Owned(c *mc.Ctx, idx int) bool {
+	if r.shardN > 0 && idx%r.shardN != r.shardI {
+		c.Skip()
+		return false
+	}
+	return true
+}
+
+// ExploreSharded runs the part in n child processes (each single-threaded,
+// optionally under `ulimit -v`), merging their statistics. The driver must
+// call r.Owned on its first choice so that shards partition the space.
+func (r *Run) ExploreSharded(part, bound string, o mc.Opts, n int, body func(*mc.Ctx)) mc.Stats {
+	if r.skip(part) {
+		return mc.Stats{}
+	}
+	if r.replay != nil || n <= 1 {
+		return r.Explore(part, bound, o, body)
+	}
+	if r.shardN > 0 { // child
+		o.Workers = 1
+		st := mc.Explore(o, body)
+		st.Locals = nil
+		out := childStats{Stats: st}
+		if st.HarnessErr != nil {
+			out.Herr = st.HarnessErr.Error()
+			out.Stats.HarnessErr = nil
+		}
+		b, _ := json.Marshal(out)
+		if err := os.WriteFile(r.childOut, b, 0o644); err != nil {
+			fmt.Println("HARNESS-ERROR", err)
+			os.Exit(2)
+		}
+		os.Exit(0)
+	}
+	t0 := time.Now()
+	dir := filepath.Join(Root, ".work", "shards")
+	os.MkdirAll(dir, 0o755)
+	type res struct {
+		st  childStats
+		err error
+	}
+	results := make([]res, n)
+	done := make(chan int)
+	for i := 0; i < n; i++ {
+		go func(i int) {
+			defer func() { done <- i }()
+			out := filepath.Join(dir, fmt.Sprintf("%s-%s-%d.json", r.ID, part, i))
+			os.Remove(out)
+			cmd := exec.Command(os.Args[0], "--tier", r.Tier, "--only", part, "--shard", fmt.Sprintf("%d/%d", i, n), "--child-out", out)
+			cmd.Env = append(os.Environ(), "GOMAXPROCS=1")
+			ob, err := cmd.CombinedOutput()
+			if err != nil {
+				results[i].err = fmt.Errorf("shard %d: %v: %s", i, err, tail(string(ob), 2000))
+				return
+			}
+			b, err := os.ReadFile(out)
+			if err == nil {
+				err = json.Unmarshal(b, &results[i].st)
+			}
+			results[i].err = err
+			os.Remove(out)
+		}(i)
+	}
+	for i := 0; i < n; i++ {
+		<-done
+	}
+	var st mc.Stats
+	st.Complete = true
+	st.ClassCount = map[string]int64{}
+	for i := range results {
+		if results[i].err != nil {
+			r.harnessErr = append(r.harnessErr, results[i].err.Error())
+			st.Complete = false
+			continue
+		}
+		c := results[i].st
+		st.Execs += c.Execs
+		st.Points += c.Points
+		st.NonTrivial += c.NonTrivial
+		st.FailCount += c.FailCount
+		if c.MaxDepth > st.MaxDepth {
+			st.MaxDepth = c.MaxDepth
+		}
+		st.Complete = st.Complete && c.Complete
+		for k, v := range c.ClassCount {
+			st.ClassCount[k] += v
+		}
+		st.Fails = append(st.Fails, c.Fails...)
+		if c.Herr != "" {
+			r.harnessErr = append(r.harnessErr, part+": "+c.Herr)
+		}
+	}
+	r.account(part, bound, o, st, t0, body)
 	return st
+}
+
+type childStats struct {
+	mc.Stats
+	Herr string
+}
+
+func tail(s string, n int) string {
+	if len(s) > n {
+		return s[len(s)-n:]
+	}
+	return s
 }
 
 // Custom runs a non-E1 part (BFS, static enumeration). fn returns its stats.
